@@ -1008,6 +1008,10 @@ mod pipeline {
             assert!(self.cmds.len() >= 2);
 
             let (err_read, err_write) = crate::popen::make_pipe()?;
+            // Only the copies installed as the commands' stderr may
+            // reach the children.
+            crate::popen::set_inheritable(&err_read, false)?;
+            crate::popen::set_inheritable(&err_write, false)?;
             self = self.stderr_to(err_write);
 
             let stdin_data = self.stdin_data.take();
